@@ -51,6 +51,7 @@ const char* const K_XFER = "C16|varopt_union|get_result-throws-logic_error(trans
 const char* const K_TIE = "C16|varopt|update-throws-logic_error(not-in-valid-estimation-mode)|H-item-equal-to-tau-up-to-rounding,non-dyadic-weights";
 const char* const K_TIE_U = "C16|varopt_union|update-or-get_result-throws-logic_error(not-in-valid-estimation-mode)|gadget-H-item-equal-to-tau-up-to-rounding,non-dyadic-weights";
 const char* const K_HEAP = "C16|varopt_union|updates-after-get_result-misplace-heavy-items|pseudo-exact-result-whose-H-region-is-not-a-heap";
+const char* const K_MARKS = "C16|varopt_union|get_result-after-union-deserialize-reads-uninitialized-marks|gadget-in-sampling-mode-with-marked-H-item";
 const char* const K_RESET = "C16|varopt|reset-after-deserialize-writes-past-allocation|warm-up-image-with-fewer-slots-than-initial-allocation,reset,updates";
 
 const double REL = 1e-9;
@@ -395,19 +396,43 @@ uint32_t initial_alloc(uint32_t k, uint32_t lg_rf) {
   return a;
 }
 
-[[noreturn]] void classify_union_throw(const std::logic_error& e, bool u_deser_sampling, const char* what) {
+// true when the gadget inside the union (read from the documented serialized layout) has its heap root within rounding
+// distance below tau: the shape of the rounding defect K_TIE inside a union
+template <class T>
+bool union_tie_shape(const var_opt_union<T>& u) {
+  try {
+    auto b = u.serialize(0);
+    if (b.size() < 64 + 8) return false;
+    const uint8_t* g = b.data() + 32;              // union preamble: 4 longs, then the gadget image
+    if ((g[0] & 0x3f) != 4) return false;          // gadget not in sampling mode
+    uint32_t h, r; double wr, w0;
+    std::memcpy(&h, g + 16, 4); std::memcpy(&r, g + 20, 4); std::memcpy(&wr, g + 24, 8);
+    if (h == 0 || r == 0) return false;
+    std::memcpy(&w0, g + 32, 8);
+    const double tau = wr / r;
+    return w0 < tau && w0 >= tau * (1 - REL);
+  } catch (const std::exception&) { return false; }
+}
+
+[[noreturn]] void classify_union_throw(const std::logic_error& e, bool u_deser_sampling, const char* what, bool tie_shape) {
   const std::string w = e.what();
   if (w.find("transferred weight") != std::string::npos)
     VF_CHECK_K(false, "union-throws", K_XFER, what << " throws logic_error: " << w);
   if (u_deser_sampling) VF_CHECK_K(false, "union-throws", K_DESER_U, what << " on a deserialized union throws logic_error: " << w);
-  if (w.find("valid estimation mode") != std::string::npos && !G->exact_scale)
-    VF_CHECK_K(false, "union-throws", K_TIE_U, what << " throws logic_error with non-dyadic weights: " << w);
+  if (w.find("valid estimation mode") != std::string::npos && tie_shape)
+    VF_CHECK_K(false, "union-throws", K_TIE_U, what << " throws logic_error: " << w << " (gadget heap root equals tau up to rounding)");
   VF_CHECK(false, "union-throws", what << " throws logic_error: " << w);
   throw;  // not reached
 }
 
 template <class T>
 var_opt_sketch<T> safe_get_result(const var_opt_union<T>& u, bool u_deser_sampling) {
+  if (u_deser_sampling) {
+    // known on the pinned tree: get_result() of a union deserialized with a sampling-mode gadget either throws (m_ = 1) or,
+    // before that, swaps indeterminate mark bytes (UBSan abort). Listed keys stop the case here; otherwise it runs.
+    if (vf::known_keys().count(K_DESER_U)) throw vf::KnownSkip(K_DESER_U);
+    if (vf::known_keys().count(K_MARKS)) throw vf::KnownSkip(K_MARKS);
+  }
 #if defined(VF_ASAN)
   {
     // the pinned mark_moving_gadget_coercer leaks two arrays when it throws; probe first with leak tracking off so that a
@@ -417,10 +442,10 @@ var_opt_sketch<T> safe_get_result(const var_opt_union<T>& u, bool u_deser_sampli
     VF_LSAN_OFF();
     try { var_opt_sketch<T> probe = u.get_result(); } catch (const std::logic_error& e) { threw = true; err = e; }
     VF_LSAN_ON();
-    if (threw) classify_union_throw(err, u_deser_sampling, "get_result()");
+    if (threw) classify_union_throw(err, u_deser_sampling, "get_result()", true);
   }
 #endif
-  try { return u.get_result(); } catch (const std::logic_error& e) { classify_union_throw(e, u_deser_sampling, "get_result()"); }
+  try { return u.get_result(); } catch (const std::logic_error& e) { classify_union_throw(e, u_deser_sampling, "get_result()", true); }
 }
 
 template <class T> struct Ctx {
@@ -538,7 +563,7 @@ void op_union(Ctx<T>& c, const Op& op) {
   var_opt_union<T> u(static_cast<uint32_t>(max_k));
   bool u_deser_sampling = false;
   if (mode & 32) {  // a used and reset union behaves like a fresh one
-    try { u.update(c.slots[in[0]].sk); } catch (const std::logic_error& e) { classify_union_throw(e, false, "union.update()"); }
+    try { u.update(c.slots[in[0]].sk); } catch (const std::logic_error& e) { classify_union_throw(e, false, "union.update()", union_tie_shape(u)); }
     u.reset();
     G->labels.insert("union-reset-reuse");
   }
@@ -554,7 +579,7 @@ void op_union(Ctx<T>& c, const Op& op) {
         u.update(s.sk);
         VF_CHECK(so.same(observe(s.sk)), "union-input-modified", "union.update(const&) changed input slot " << in[j]);
       }
-    } catch (const std::logic_error& e) { classify_union_throw(e, u_deser_sampling, "union.update()"); }
+    } catch (const std::logic_error& e) { classify_union_throw(e, u_deser_sampling, "union.update()", union_tie_shape(u)); }
     if (so.r > 0) any_sampling = true;
     rm.n += s.m.n; rm.total += s.m.total;
     for (const auto& rg : s.m.member) rm.member.push_back(rg);
@@ -736,15 +761,24 @@ void prop_unbiased(const Case& cs) {
   for (int rep = 0; rep < reps; ++rep) {
     vf::own_randomness(vf::mix64(seed * 7919 + static_cast<uint64_t>(rep)));
     var_opt_sketch<uint64_t> a(k), b(k2), c3(std::max<uint32_t>(1, (k + k2) / 2));
-    for (uint64_t i = 0; i < n; ++i) {
-      if (w[i] <= 0) continue;
-      if (i < cut1) a.update(i, w[i]); else if (i < cut2) b.update(i, w[i]); else c3.update(i, w[i]);
-    }
     var_opt_sketch<uint64_t> res(1);
+    try {
+      for (uint64_t i = 0; i < n; ++i) {
+        if (w[i] <= 0) continue;
+        if (i < cut1) a.update(i, w[i]); else if (i < cut2) b.update(i, w[i]); else c3.update(i, w[i]);
+      }
+    } catch (const std::logic_error& e) {
+      if (std::string(e.what()).find("valid estimation mode") != std::string::npos && scale == 0.1)
+        VF_CHECK_K(false, "update-logic-error", K_TIE, "update throws logic_error: " << e.what() << " (rep " << rep << ")");
+      VF_CHECK(false, "update-logic-error", "update throws logic_error: " << e.what() << " (rep " << rep << ")");
+    }
     if (mode == 0) res = std::move(a);
     else {
       var_opt_union<uint64_t> u(max_k);
-      u.update(a); u.update(b); if (mode == 2) u.update(c3);
+      const var_opt_sketch<uint64_t>* ins[3] = {&a, &b, &c3};
+      for (int q = 0; q < (mode == 2 ? 3 : 2); ++q) {
+        try { u.update(*ins[q]); } catch (const std::logic_error& e) { classify_union_throw(e, false, "union.update()", union_tie_shape(u)); }
+      }
       res = safe_get_result(u, false);
     }
     subset_summary all = res.estimate_subset_sum([](const uint64_t&) { return true; });
